@@ -800,8 +800,19 @@ def _fresh_arrayvec_push(F, s):
     return "%d push site(s), none in a loop, onto a fresh ArrayVec of capacity %d" % (len(sites), cap)
 
 
+EXTRA_DISCHARGERS = []     # callables (F, site, cfg) -> reason | None, installed by contract modules (enc.py)
+
+
 def auto_discharge(F, s, cfg):
     """returns reason string or None"""
+    for fn in EXTRA_DISCHARGERS:
+        why = fn(F, s, cfg)
+        if why:
+            return why
+    return _auto_discharge(F, s, cfg)
+
+
+def _auto_discharge(F, s, cfg):
     body = s.body
     if s.cls == "index" and s.kind == "BoundsCheck":
         ln, ix = body.origin(s.ops[0]), body.origin(s.ops[1])
